@@ -115,6 +115,70 @@ fn inside_tx() {
     check_native("app_query_sees_committed_state", raw == want_m, || format!("{:?}", raw));
 }
 
+/// found missing by seed C10c: the entry point of a freshly instantiated contract queries its own and
+/// its creator's balance — from the App and as a sub-message of a contract, with attached funds
+fn funded_instantiate_queries_on_entry() {
+    let mut w = world(1);
+    let u0 = sym_u128("bal_u", 0, BAL);
+    let ua = w.user.clone();
+    w.app.init_modules(|router, _, storage| router.bank.init_balance(storage, &ua, vec![coin(u0, "x")]).unwrap());
+    let f = sym_u128("f", 1, BAL);
+    let k0 = w.ks[0].clone();
+    let inst = Script::new()
+        .then(Step::QueryBalance { tag: "own_at_entry".into(), addr: "@self".into(), denom: "x".into() })
+        .then(Step::QueryBalance { tag: "creator_at_entry".into(), addr: "@sender".into(), denom: "x".into() });
+    let from_contract = choose(2) == 1;
+    sc::trace_clear();
+    let user = w.user.clone();
+    let r = catch(|| {
+        if from_contract {
+            let outer = Script::new().sub(
+                WasmMsg::Instantiate { admin: None, code_id: 1, msg: inst.bin(), funds: vec![coin(f, "x")], label: "n".into() },
+                ReplyOn::Never,
+                1,
+                None,
+            );
+            w.app.execute_contract(user.clone(), k0.clone(), &outer, &[]).map(|_| ())
+        } else {
+            w.app.instantiate_contract(1, user.clone(), &inst, &[coin(f, "x")], "n", None).map(|_| ())
+        }
+    });
+    let r = match r {
+        Ok(r) => r,
+        Err(p) => {
+            failure("no_panic", "panic", p);
+            return;
+        }
+    };
+    let trace = sc::trace_take();
+    let payer = if from_contract { w.bal[0] } else { v(u0) };
+    if !decide(le(v(f), payer)) {
+        check_native("uncovered_funds_fail", r.is_err(), || "ok".into());
+        return;
+    }
+    if let Err(e) = &r {
+        check_native("covered_instantiate_succeeds", false, || format!("{:#}", e));
+        return;
+    }
+    witness("inst_ok");
+    match num(&trace, "own_at_entry") {
+        Some(b) => {
+            check("query_on_entry_sees_attached_funds", eq(v(b), v(f)));
+        }
+        None => {
+            check_native("query_on_entry_answers", false, || format!("{:?}", obs(&trace, "own_at_entry")));
+        }
+    }
+    match num(&trace, "creator_at_entry") {
+        Some(b) => {
+            check("query_on_entry_sees_attached_funds", eq(v(b), sub(payer, v(f))));
+        }
+        None => {
+            check_native("query_on_entry_answers", false, || format!("{:?}", obs(&trace, "creator_at_entry")));
+        }
+    }
+}
+
 /// set / remove of a key that exists in committed state by two completed sibling sub-messages, then a
 /// query from the reply handler (the overlay's deletions must hide the committed value)
 fn overwrite_then_remove() {
@@ -223,6 +287,7 @@ pub fn scenarios(_tier: &str) -> Vec<Scenario> {
     vec![
         Scenario::new("queries_inside_a_transaction", &["tx_ok", "a_ok", "a_failed_and_caught"], inside_tx),
         Scenario::new("overlay_visible_through_queries", &["tx_ok"], overwrite_then_remove),
+        Scenario::new("funded_instantiate_queries_on_entry", &["inst_ok"], funded_instantiate_queries_on_entry),
         Scenario::new("every_query_kind_is_pure", &["all_queries"], purity),
     ]
 }
